@@ -271,13 +271,14 @@ PROPS['C07'] = dict(
 PROPS['C18']['spec_is_model'] = ['c18']
 
 PROPS['C11'] = dict(
-    lean_targets=['AnonModel.Props.C11'],
-    required_theorems=['C11_issue_ok_iff', 'C11_issue_replayed_request_refused', 'C11_issue_foreign_request_refused', 'C11_issue_wrong_attributes_refused',
+    lean_targets=['AnonModel.Props.C11', 'AnonModel.Props.C11W3C'],
+    required_theorems=['C11_w3c_issue_ok_iff', 'C11_w3c_issue_boolean_refused', 'C11_w3c_process_ok_iff', 'C11_w3c_process_boolean_rejected', 'C11_w3c_honest_roundtrip',
+                       'C11_w3c_tamper_rejected_other_holder', 'C11_issue_ok_iff', 'C11_issue_replayed_request_refused', 'C11_issue_foreign_request_refused', 'C11_issue_wrong_attributes_refused',
                        'C11_issue_case_variants_accepted', 'C11_request_ok_iff', 'C11_process_ok_iff', 'C11_honest_roundtrip', 'C11_tamper_rejected_changed_value',
                        'C11_tamper_rejected_other_holder', 'C11_processed_is_presentable'],
     families=[dict(name='c11')], default_dir='exact', spec_is_model=['c11'],
-    fam_theorem={'c11': 'C11_issue_ok_iff / C11_process_ok_iff over the issuance model'},
-    rule="for three definitions (URI ids, case/space-variant attribute names, legacy ids with prover DID) and two holders: issuer side — honest (offer, request) pairing, a request replayed under a fresh offer, a request made for another definition, blinded secret altered, attribute set missing / extra / renamed / respelled; holder side — honest processing, other link secret, metadata of another request, other definition, encoded value changed, raw only changed, two values swapped, key respelled, value removed, six perturbed numbers of signature and correctness proof, cred_def_id string changed; real issuer/prover decisions compared exactly with the model (ghost: which key / holder / blinding / nonce each object was really built with); oracle: tampered or foreign => refused, honest => accepted",
+    fam_theorem={'c11': 'C11_issue_ok_iff / C11_process_ok_iff / C11_w3c_issue_ok_iff / C11_w3c_process_ok_iff over the issuance model'},
+    rule="for three definitions (URI ids, case/space-variant attribute names, legacy ids with prover DID) and two holders: issuer side — honest (offer, request) pairing, a request replayed under a fresh offer, a request made for another definition, blinded secret altered, attribute set missing / extra / renamed / respelled; holder side — honest processing, other link secret, metadata of another request, other definition, encoded value changed, raw only changed, two values swapped, key respelled, value removed, six perturbed numbers of signature and correctness proof, cred_def_id string changed; real issuer/prover decisions compared exactly with the model (ghost: which key / holder / blinding / nonce each object was really built with); oracle: tampered or foreign => refused, honest => accepted. The same in W3C form (w3c::issuer::create_credential / w3c::prover::process_credential): subjects mixing strings and numbers, extra entries of every JSON type incl. boolean true / false, a schema attribute given as boolean, entries added / removed / changed / replaced by true / swapped / respelled / number given as string after issuance",
     trusted_base=TRUSTED_COMMON + ["IdealCL issuance (DESIGN §4 v): blinded-secret and signature correctness proofs verify iff built for that key / nonce / values / blinding — assumed, validated on every generated pairing and alteration"],
 )
 PROPS['C14'] = dict(
